@@ -60,6 +60,23 @@ def run_history(ctx, exe, rng, idx):
             if (r < 0.30 or not live) and free_slots:
                 a, h = rng.choice(free_slots)
                 n = rng.choice(names)
+                if rng.random() < 0.12:
+                    # the process has no free descriptor: p_semaphore_new must fail and leave the name and its counter exactly as they were
+                    mode = "c" if rng.random() < 0.6 else "o"
+                    what = "new(%s) agent%d h%d %s init=4 with the descriptor table full" % ("CREATE" if mode == "c" else "OPEN", a, h, n[-1])
+                    log.append(what)
+                    ags[a].cmd("nofd 1")
+                    res = ags[a].cmd("new %d %s 4 %s" % (h, n, mode))
+                    ags[a].cmd("nofd 0")
+                    stats["new_without_descriptors"] += 1
+                    if res.startswith("ok"):
+                        ctx.violation("history symptom=new-succeeded-without-descriptors", "p_semaphore_new returned a handle although sem_open failed with EMFILE; history: %s" % " | ".join(log), {"history": log})
+                        ok = False
+                        break
+                    if not check_files(ctx, m, names, what + " ; history: " + " | ".join(log)):
+                        ok = False
+                        break
+                    continue
                 v = rng.choice([0, 1, 1, 2, 3, 5, 0, 1, 2, 32767, 32768, 100000, 2 ** 31 - 1000])      # also values above _POSIX_SEM_VALUE_MAX, up to (history length) below SEM_VALUE_MAX so that releases cannot overflow
                 mode = "c" if rng.random() < 0.3 else "o"
                 what = "new(%s) agent%d h%d %s init=%d" % ("CREATE" if mode == "c" else "OPEN", a, h, n[-1], v)
